@@ -8,8 +8,8 @@
    Where the faithful model violates a condition, the violation is stated as a [..._refuted] theorem with a
    witness that is replayed against the implementation (findings F-14b .. F-14e, F-14n). *)
 From Coq Require Import String List Bool.
-From PVBld Require Import Generated.Keywords Names Paths BoxCycle
-                          Proofs.NamesP Proofs.PathsP Proofs.BoxCycleP.
+From PVBld Require Import Generated.Keywords Generated.DeriveTables Names Paths BoxCycle Derive
+                          Proofs.NamesP Proofs.PathsP Proofs.BoxCycleP Proofs.DeriveP.
 Import ListNotations.
 Open Scope string_scope.
 
@@ -108,3 +108,62 @@ Theorem C14_box_union_cycle_refuted :
   NoDup (map fst union_cycle) /\ on_cycle (residual_edges union_cycle) 0 /\ ~ finite_size union_cycle.
 Proof. exact box_union_cycle_refuted. Qed.
 Print Assumptions C14_box_union_cycle_refuted.
+
+(* ---- AutoDerivePlugin: who gets #[derive(PartialOrd)] / #[derive(Hash, Eq, Ord)] ------------------------------------------------- *)
+(* Full statement: forall graph order item, derives item -> supports graph item.  The faithful model violates it in two
+   decidable classes (refuted below); outside them, for EVERY item graph (cycles included), every order of the codegen items
+   and both trait bundles: every derived impl type-checks (each field / payload / target type implements the traits, given
+   the set of items that carry the derive), and an item that carries the derive contains, transitively through fields,
+   containers and typedefs, only items made of kinds that support the traits.
+     closed_b               every path names a Message / Enum / NewType of the graph (holds for every resolved document)
+     ws_complete_b          every path PathCollector finds is an edge of the workspace graph, which the downgrade of delayed
+                            items consults (REGENERATED accessor; fails for paths below Arc / BTreeSet / BTreeMap: F-14s)
+     btree_unsupported_b    a btree container that hides an unsupported kind from the predicate closures (F-14k)
+   The kinds the predicate closures reject are REGENERATED from lib.rs. *)
+Theorem C14_derive_sound :
+  forall tr g order m,
+    run tr g order = Done m ->
+    closed_b g = true -> ws_complete_b g = true -> btree_unsupported_b tr g = false ->
+    consistent tr g (derives m) /\ forall d, derives m d = true -> supports tr g d.
+Proof. exact derive_sound. Qed.
+Print Assumptions C14_derive_sound.
+
+(* the walk always ends normally (no panic, fuel = number of items + 1 is never exhausted) *)
+Theorem C14_derive_terminates :
+  forall tr g order,
+    closed_b g = true -> (forall d, In d order -> In d (map fst g)) -> exists m, run tr g order = Done m.
+Proof. exact derive_terminates. Qed.
+Print Assumptions C14_derive_terminates.
+
+(* finding F-14k: map<i32, double> with pilota.rust_type = "btree" gets Hash/Eq/Ord *)
+Theorem C14_derive_btree_refuted :
+  exists m, run HEO btree_double [0] = Done m /\
+    closed_b btree_double = true /\ ws_complete_b btree_double = true /\ btree_unsupported_b HEO btree_double = true /\
+    derives m 0 = true /\ ~ consistent HEO btree_double (derives m) /\ ~ supports HEO btree_double 0.
+Proof. exact derive_btree_refuted. Qed.
+Print Assumptions C14_derive_btree_refuted.
+
+(* finding F-14s: a cycle closed through Arc (or a btree container) whose other member loses the derive later *)
+Theorem C14_derive_delay_edge_refuted :
+  forall g, g = arc_cycle \/ g = btree_cycle ->
+  exists m, run HEO g [0; 1; 2] = Done m /\
+    closed_b g = true /\ btree_unsupported_b HEO g = false /\ ws_complete_b g = false /\
+    derives m 1 = true /\ derives m 0 = false /\ ~ consistent HEO g (derives m) /\ ~ supports HEO g 1.
+Proof. exact derive_delay_edge_refuted. Qed.
+Print Assumptions C14_derive_delay_edge_refuted.
+
+(* the tables the model reads are the ones it was written against: TyKind members, predicate shapes, the workspace graph in
+   the downgrade, and the text of can_derive / on_item / on_emit / PathCollector / walk_ty / the two graphs (by digest) *)
+Theorem C14_derive_tables :
+  ty_kind_names = (map base_name all_base ++ container_names)%list /\
+  (po_pred_peel = ["Vec"] /\ heo_pred_peel = ["Vec"] /\
+   derive_instances = ["#[derive(PartialOrd)]"; "#[derive(Hash, Eq, Ord)]"]) /\
+  downgrade_graph = "workspace_graph" /\
+  map fst derive_source_digests =
+    ["can_derive"; "on_item"; "on_emit"; "PathCollector"; "Visitor"; "walk_ty"; "WorkspaceGraph::from_items";
+     "WorkspaceGraph::is_nested"; "TypeGraph::from_items"; "TypeGraph::is_nested"].
+Proof.
+  exact (conj ty_kinds_as_modelled (conj pred_shape_as_modelled (conj downgrade_uses_workspace_graph
+         (f_equal (map fst) derive_sources_pinned)))).
+Qed.
+Print Assumptions C14_derive_tables.
